@@ -356,12 +356,11 @@ func TestCheck(t *testing.T) {
 	if ev.ReplayOnly() {
 		return
 	}
-	selfTest(t, rec)
-	if t.Failed() {
-		return
+	if !t.Run("selftest", func(t *testing.T) { selfTest(t, rec) }) {
+		return // the instrumentation itself is broken: nothing below can be trusted
 	}
 
-	n := ev.N(3000, 40000)
+	n := ev.N(8000, 40000)
 	ev.RapidCheck(t, "compile", n, 1, func(rt *rapid.T) {
 		gp := gen.Generate(rt, profile(rapid.IntRange(0, 2).Draw(rt, "modules")))
 		p := prog.Prepare(gp)
